@@ -59,3 +59,13 @@ def _d14(f):
             return True
         last[(d, t)] = i
     return False
+
+
+@predicate('D8')
+def _d8(f):
+    """rust_decimal overflow panic on a ledger with a magnitude >= 10^14."""
+    if f.get('kind') not in ('panic', 'crash'):
+        return False
+    if not re.search(r'(Addition|Multiplication|Division|Subtraction) overflowed', f.get('detail', '')):
+        return False
+    return re.search(r'(?<![\d.])\d{15,}', f.get('input', '')) is not None
